@@ -19,6 +19,7 @@ RULE = ("random configurations: overall degree function from gcmpy's own distrib
         "(zero components and one-hot included), ranges lo in 0..3, width 1..12, loader in {split, delta}, delta "
         "target inside / at both ends / outside; both construction paths; non-trivial = >=2 degrees in range and a "
         "degree with >=2 admissible splits; distinct = SHA-1 of the concrete configuration")
+RULE += ("; rounds k-l added: " + 'hub cases (12% of the two-topology configurations): overall degrees 940..1066 with a table of vertex counts 1e6..1e8')
 ASSUMPTIONS = ["probs[0] > 0 (otherwise odd degrees have no admissible split of positive weight and the law is undefined)",
                "the upper end of the degree range may be inclusive or exclusive; collapse to fewer degrees is a violation",
                "floats are converted exactly to rationals; comparison at 1e-9 absolute on probabilities"]
